@@ -152,7 +152,20 @@ fn arbitrary_command(rng: &mut Rng, stream_hint: u32) -> (RMsg, u32) {
             0 => vec![],
             1 => vec![amf::s("@setDataFrame")],
             2 => vec![amf::s("@setDataFrame"), amf::s("onMetaData")],
-            3 => vec![amf::s("@setDataFrame"), amf::s("onMetaData"), amf::obj(vec![("width", amf::num(1920.0)), ("stereo", V::Bool(true)), ("encoder", amf::s("e"))])],
+            3 => vec![
+                amf::s("@setDataFrame"),
+                amf::s("onMetaData"),
+                if rng.coin() {
+                    amf::obj(vec![("width", amf::num(1920.0)), ("stereo", V::Bool(true)), ("encoder", amf::s("e"))])
+                } else {
+                    // every known key with the wrong type, and out-of-range numbers
+                    amf::obj(vec![
+                        ("width", amf::s("wide")), ("height", V::Null), ("videocodecid", V::Bool(true)), ("videodatarate", amf::s("x")), ("framerate", amf::s("30")),
+                        ("audiocodecid", V::Null), ("audiodatarate", V::Undef), ("audiosamplerate", amf::s("44100")), ("audiochannels", V::Bool(false)),
+                        ("stereo", amf::num(1.0)), ("encoder", amf::num(f64::NAN)), ("duration", amf::num(-1e300)),
+                    ])
+                },
+            ],
             4 => vec![amf::s("@setDataFrame"), amf::num(5.0)],
             5 => vec![amf::s("@setDataFrame"), amf::s("onMetaData"), arbitrary_arg(rng)],
             6 => vec![amf::s("onMetaData")],
